@@ -62,6 +62,22 @@ fn ext_of(v: Vec<&Argument<usize>>) -> Vec<(usize, usize)> {
     v.iter().map(|a| (*a.label(), a.id())).collect()
 }
 
+/// size of the largest cartesian product the auxiliary-free ("exp") complete encoding would expand on this presentation of the
+/// framework (duplicated attacks count): that encoding is exponential by design, so frameworks on which it needs more than
+/// ~2*10^5 clauses for one argument are not given to it (a resource limit, not a behaviour the properties talk about)
+pub fn exp_cost(af: &AAFramework<usize>) -> f64 {
+    let mut worst: f64 = 0.0;
+    for a in af.argument_set().iter() {
+        let mut prod: f64 = 1.0;
+        for att in af.iter_attacks_to(a) {
+            let d = af.iter_attacks_to(att.attacker()).count() as f64;
+            prod *= d.max(1.0);
+        }
+        worst = worst.max(prod);
+    }
+    worst
+}
+
 /// runs one query on a freshly built solver of the real type
 pub fn run_query(
     af: &AAFramework<usize>,
@@ -386,6 +402,8 @@ pub fn cmd_seq(a: &Args) {
     let seed: u64 = a.get("seed", "1").parse().unwrap();
     let out = a.get("out", "/dev/stdout");
     let threads: usize = a.get("threads", "16").parse().unwrap();
+    let emit_q = a.get("emitq", "no") == "yes";
+    let sems_for_fam = sems.clone();
     let jobs: Vec<(usize, AfSpec)> = afs.into_iter().enumerate().collect();
     let results = util::par_map(jobs, threads, |(idx, spec)| {
         util::install_quiet_panic_hook();
@@ -398,7 +416,7 @@ pub fn cmd_seq(a: &Args) {
             let af = afio::build(spec, present, pseed);
             let proj = afio::projection(&af);
             lines.push(json!({"ev": "af", "idx": idx, "tag": spec.tag, "present": present, "n": spec.n,
-                "args": proj["args"], "ids": proj["ids"], "att": proj["att"], "sems": []}).to_string());
+                "args": proj["args"], "ids": proj["ids"], "att": proj["att"], "sems": if emit_q { sems_for_fam.clone() } else { vec![] }}).to_string());
             let mut rng = StdRng::seed_from_u64(pseed);
             for sem in &sems {
                 for kind in ["DC", "DS"] {
@@ -414,6 +432,9 @@ pub fn cmd_seq(a: &Args) {
                     }
                     let seq: Vec<(Vec<usize>, bool)> = (0..seqlen).map(|_| (pool[rng.gen_range(0..pool.len())].clone(), rng.gen_bool(0.5))).collect();
                     for enc in encoders_for(sem, kind) {
+                        if enc == "exp_co" && exp_cost(&af) > 200_000.0 {
+                            continue;
+                        }
                         for backend in &backends {
                             if backend != "cadical" && enc == "none" && sem != "ST" {
                                 continue; // no SAT solver involved
@@ -458,6 +479,15 @@ pub fn cmd_seq(a: &Args) {
                         distinct.dedup();
                         let detail: Vec<String> = if distinct.len() > 1 { v.iter().map(|x| format!("{}={}", x.1, x.0)).collect() } else { vec![] };
                         lines.push(json!({"ev": "agree", "sem": sem, "kind": kind, "args": arg, "statuses": distinct, "n": statuses.len(), "detail": detail}).to_string());
+                        if emit_q && !arg.is_empty() {
+                            // each distinct status obtained for this query (on a solver object that has answered other queries before)
+                            for st in &distinct {
+                                let how: Vec<String> = v.iter().filter(|x| &&x.0 == st).map(|x| x.1.clone()).take(3).collect();
+                                lines.push(json!({"ev": "q", "sem": sem, "kind": kind, "args": arg, "cert": false, "encs": how, "oracle": "real", "backend": "seq",
+                                    "out": {"st": if *st == "panic" { "none" } else { st.as_str() }, "has_ext": false, "ext": [], "panic": if *st == "panic" { "panic" } else { "" }, "capped": false, "faulted": false},
+                                    "mult": 1, "runs": 1, "exh": false, "maxcalls": 0, "reused_solver": true}).to_string());
+                            }
+                        }
                     }
                 }
             }
@@ -505,6 +535,10 @@ pub fn cmd_static(a: &Args) {
                 "args": proj["args"], "ids": proj["ids"], "att": proj["att"], "sems": sems}).to_string());
             let labels: Vec<usize> = (1..=spec.n).collect();
             let mut nq = 0usize;
+            let exp_too_big = exp_cost(&af) > 200_000.0;
+            if exp_too_big {
+                lines.push(json!({"ev": "skip", "what": "exp_co encoder not run: its cartesian product exceeds 2e5 clauses for one argument", "cost": exp_cost(&af)}).to_string());
+            }
             for sem in &sems {
                 for kind in &kinds {
                     let qargs: Vec<Vec<usize>> = if kind == "SE" { vec![vec![]] } else { arg_lists(&labels, lists) };
@@ -518,6 +552,7 @@ pub fn cmd_static(a: &Args) {
                             for enc in &encs {
                                 nq += 1;
                                 if nq > maxq { continue; }
+                                if exp_too_big && *enc == "exp_co" { continue; }
                                 if failing {
                                     // C17: the backend fails at every call (process exit, truncated / garbled reply, ...)
                                     let ctl = Ctl::new(false, vec![]);
